@@ -81,6 +81,9 @@ type lab struct {
 	db   *sql.DB // plain memsql (mode plain) or the fence driver over memsql (mode driver)
 	xid  string
 	nb   int
+	// netFault: injected database failures of this scenario are not MySQL server errors but what a broken
+	// network gives (an i/o timeout from the driver)
+	netFault bool
 }
 
 func bid(b int) int64 { return int64(100 + b) }
@@ -222,7 +225,11 @@ func (l *lab) deliver(b int, phase string, fail int) (err error, fired bool, hit
 	before := l.srv.FaultsFired()
 	l.srv.ClearJournal()
 	if fail > 0 {
-		l.srv.AddFault(memsql.Fault{Nth: fail})
+		f := memsql.Fault{Nth: fail}
+		if l.netFault {
+			f.Err = fmt.Errorf("read tcp 10.0.0.9:51122->10.0.0.5:3306: i/o timeout (memsql injected fault)")
+		}
+		l.srv.AddFault(f)
 	}
 	if l.mode == "driver" {
 		err = l.viaDriver(b, phase)
@@ -502,6 +509,7 @@ func main() {
 }
 
 func run(l *lab, t *trace.T, sc scenario, i int) {
+	l.netFault = i%2 == 1
 	l.reset(fmt.Sprintf("xid-%d", i), sc.NB)
 	t.Add("Init", "nb", sc.NB, "mode", l.mode, "sig", "init")
 	for _, st := range sc.Steps {
